@@ -2,6 +2,7 @@ import keyword
 import builtins
 import ast
 import sys
+import importlib
 import inspect
 from collections import OrderedDict
 import logging
@@ -326,6 +327,13 @@ def function_given_through_module(
     for p in parts[1:]:
         if not isinstance(obj, ModuleType):
             return None
+        if p not in obj.__dict__ and hasattr(obj, "__path__"):
+            # A submodule that nobody has imported yet in this process ('import pkg.sub' inside the body has
+            # not run when the function is analysed): what is found must not depend on that.
+            try:
+                importlib.import_module(f"{obj.__name__}.{p}")
+            except ImportError:
+                pass
         obj = obj.__dict__.get(p)
     return ".".join(parts) if isinstance(obj, FunctionType) else None
 
